@@ -111,10 +111,14 @@ var verifCurStream *verifStream
 // counted; any write may fail.
 func verifSerdeWrite(w io.Writer, msg proto.Message) (int, error) {
 	if resp, ok := msg.(*shrexpb.Response); ok {
-		if verifCurStream.writeFail {
+		cur := verifCurStream
+		if vs, ok := w.(*verifStream); ok {
+			cur = vs
+		}
+		if cur.writeFail {
 			return 0, errors.New("stream write failed")
 		}
-		verifCurStream.statuses = append(verifCurStream.statuses, resp.Status)
+		cur.statuses = append(cur.statuses, resp.Status)
 		return 2, nil
 	}
 	return w.Write([]byte{1, 2, 3})
@@ -290,3 +294,92 @@ func VerifH_C09_Row() { verifServe(3, shwap.RowIDSize) }
 
 //verif:opts nopanic nodeadlock threads=16 cover=malformed,invalid,notfound,ok,refused
 func VerifH_C09_Range() { verifServe(4, shwap.RangeNamespaceDataIDSize) }
+
+// ---- two requests of one type in flight ----------------------------------------
+
+// a store with one block per height whose lookup takes time (other streams run
+// while a request waits for its file)
+type verifStore2 struct{ accs map[uint64]*verifAcc }
+
+func (s *verifStore2) GetByHeight(_ context.Context, h uint64) (eds.AccessorStreamer, error) {
+	nd.Yield()
+	acc, ok := s.accs[h]
+	if !ok {
+		return nil, store.ErrNotFound
+	}
+	nd.Yield()
+	return eds.AccessorAndStreamer(eds.WithValidation(acc), acc), nil
+}
+func (s *verifStore2) HasByHeight(_ context.Context, h uint64) (bool, error) {
+	_, ok := s.accs[h]
+	return ok, nil
+}
+
+// Two peers ask one server for data of the same type at the same time: each is
+// answered from the block and at the coordinates of ITS OWN request, whatever
+// the interleaving of the two handlers.
+//
+//verif:opts nopanic nodeadlock noreplay preempt=1 preempt_thorough=2 threads=16 cover=row,sample,both-served
+func VerifH_C09_ConcurrentRequestsKeepTheirOwnCoordinates() {
+	const width = 4
+	heights := [2]uint64{7, 8}
+	st := &verifStore2{accs: map[uint64]*verifAcc{7: {width: width}, 8: {width: width}}}
+	srv := &Server{store: st, params: DefaultServerParameters()}
+	kind := nd.Choice(2, "kind") // 0 row, 1 sample
+	reqIdx := 3
+	if kind == 1 {
+		reqIdx = 2
+	}
+	var rows, cols [2]int
+	var streams [2]*verifStream
+	for i := range streams {
+		rows[i], cols[i] = nd.Int("row"), nd.Int("col")
+		nd.Assume(rows[i] >= 0 && rows[i] < width && cols[i] >= 0 && cols[i] < width)
+		var raw []byte
+		if kind == 0 {
+			id, err := shwap.NewRowID(heights[i], rows[i], width)
+			nd.Assume(err == nil)
+			raw, err = id.MarshalBinary()
+			nd.Assume(err == nil)
+			nd.Cover("row")
+		} else {
+			id, err := shwap.NewSampleID(heights[i], shwap.SampleCoords{Row: rows[i], Col: cols[i]}, width)
+			nd.Assume(err == nil)
+			raw, err = id.MarshalBinary()
+			nd.Assume(err == nil)
+			nd.Cover("sample")
+		}
+		streams[i] = &verifStream{in: raw, scope: &verifScope{}}
+	}
+	verifCurStream = streams[0]
+	handler := srv.streamHandler(context.Background(), registry[reqIdx]) // registered once, serves every stream
+	done := make(chan struct{}, 2)
+	for i := range streams {
+		s := streams[i]
+		go func() {
+			handler(s)
+			done <- struct{}{}
+		}()
+	}
+	<-done
+	<-done
+	for i := range streams {
+		acc := st.accs[heights[i]]
+		nd.Assert(len(streams[i].statuses) == 1 && streams[i].statuses[0] == shrexpb.Status_OK, "valid-concurrent-request-is-served")
+		nd.Assert(acc.closed == 1, "accessor-closed-exactly-once")
+		for c, name := range acc.calls {
+			switch name {
+			case "AxisHalf":
+				nd.Assert(kind == 0 && acc.args[c][0] == int(rsmt2d.Row) && acc.args[c][1] == rows[i], "request-is-answered-at-its-own-coordinates")
+			case "Sample":
+				nd.Assert(kind == 1 && acc.args[c][0] == rows[i] && acc.args[c][1] == cols[i], "request-is-answered-at-its-own-coordinates")
+			case "AxisRoots":
+			default:
+				nd.Assert(false, "request-is-answered-at-its-own-coordinates")
+			}
+		}
+		sc := streams[i].scope
+		nd.Assert(len(sc.released) == len(sc.reserved), "memory-released-iff-reserved")
+	}
+	nd.Cover("both-served")
+}
